@@ -9,6 +9,7 @@ import (
 	"github.com/iotaledger/hive.go/runtime/workerpool"
 	"verifharness/hx"
 	"verifsim/simrt"
+	"verifsim/simsync"
 )
 
 func TestSim(t *testing.T) {
@@ -35,6 +36,8 @@ type window struct{ from, to, startInv uint64 }
 type callIv struct{ inv, ret uint64 } // one Shutdown() call
 
 type world struct {
+	watchMu  simsync.Mutex
+	watched  map[*workerpool.WorkerPool]bool // the harness listens to these pools' pending-task counters
 	s        *simrt.Sim
 	subs     []*subm
 	inflight map[*simrt.Task]*subm
@@ -114,6 +117,15 @@ func (r *waitRec) check(s *simrt.Sim) {
 }
 
 func (w *world) watch(p *workerpool.WorkerPool) {
+	w.watchMu.Lock() // a second harness task that wants to submit waits until the subscription is in place
+	defer w.watchMu.Unlock()
+	if w.watched == nil {
+		w.watched = map[*workerpool.WorkerPool]bool{}
+	}
+	if w.watched[p] {
+		return
+	}
+	w.watched[p] = true
 	p.PendingTasksCounter.Subscribe(func(o, n int) {
 		if n < 0 {
 			w.s.Fail("counter", "negative", "pending counter became %d", n)
@@ -575,6 +587,45 @@ func groupTree(s *simrt.Sim) {
 		cur = sub
 	}
 	s.Logf("tree depth=%d pools=%d", depth, len(pools))
+	npick := len(pools)
+	// optionally a pool that one task creates in the root group while another task looks it up by name and submits to
+	// it as soon as the group hands it out: from then on it counts for the waits on the root like every other pool
+	late := -1
+	if s.Choose(3) == 2 {
+		late = len(pools)
+		worlds = append(worlds, &world{s: s, inflight: map[*simrt.Task]*subm{}})
+		pools = append(pools, nil)
+		nodes[0].pools = append(nodes[0].pools, late)
+		d1, d2, polls, nsubmit := s.Choose(4), s.Choose(4), 2+s.Choose(6), 1+s.Choose(2)
+		s.Go("latecreator", func() {
+			for k := 0; k < d1; k++ {
+				simrt.Yield()
+			}
+			p := root.CreatePool("late", workerpool.WithWorkerCount(1+s.Choose(2)))
+			pools[late] = p
+			worlds[late].watch(p)
+			worlds[late].windows = append(worlds[late].windows, &window{from: s.Tick()})
+		})
+		s.Go("submitterByName", func() {
+			for k := 0; k < d2; k++ {
+				simrt.Yield()
+			}
+			for k := 0; k < polls; k++ {
+				if p, ok := root.Pool("late"); ok {
+					s.Probe("pool-looked-up-by-name")
+					if pools[late] == nil {
+						s.Probe("pool-looked-up-by-name-before-CreatePool-returned")
+					}
+					worlds[late].watch(p)
+					for j := 0; j < nsubmit; j++ {
+						worlds[late].submit(p, fmt.Sprintf("byname.%d", j), s.Choose(3), 0)
+					}
+					return
+				}
+				simrt.Yield()
+			}
+		})
+	}
 	s.Probe(fmt.Sprintf("tree-depth-%d", depth))
 	var waits []*waitRec
 	below := func(n *gnode) (l []*world) {
@@ -589,7 +640,7 @@ func groupTree(s *simrt.Sim) {
 		type spec struct{ pool, yields, nested int }
 		specs := make([]spec, n)
 		for j := range specs {
-			specs[j] = spec{s.Choose(len(pools)), s.Choose(3), s.Choose(2)}
+			specs[j] = spec{s.Choose(npick), s.Choose(3), s.Choose(2)}
 		}
 		s.Go(fmt.Sprintf("submitter%d", i), func() {
 			for j, sp := range specs {
@@ -684,12 +735,15 @@ func groupTree(s *simrt.Sim) {
 	}
 	left := s.Quiesce()
 	hx.Stuck(s, "termination", left, func(t simrt.TaskInfo) bool {
-		return strings.HasPrefix(t.Name, "submitter") || strings.HasPrefix(t.Name, "waiter") || t.Name == "subshutdown" || t.Name == "poolshutdown"
+		return strings.HasPrefix(t.Name, "submitter") || strings.HasPrefix(t.Name, "waiter") || t.Name == "subshutdown" || t.Name == "poolshutdown" || t.Name == "latecreator"
 	})
 	for _, r := range waits {
 		r.check(s)
 	}
 	for i, p := range pools {
+		if p == nil {
+			continue // reported above: its creator is stuck
+		}
 		if v := p.PendingTasksCounter.Get(); v != 0 {
 			s.Fail("conservation", "counter-nonzero", "pending counter of %s is %d at quiescence", p.Name, v)
 		}
@@ -719,7 +773,9 @@ func groupTree(s *simrt.Sim) {
 	s.Go("groupshutdown", func() {
 		root.Shutdown()
 		for _, p := range pools {
-			p.ShutdownComplete.Wait()
+			if p != nil {
+				p.ShutdownComplete.Wait()
+			}
 		}
 		done = true
 	})
